@@ -276,6 +276,12 @@ class Lower:
             acc = '(%s).e[%%d]' if k == 'stdarray' else '(%s)[%%d]'
             parts = [self.destroy_stmt(et, (acc % lval) % i) for i in reversed(range(n))]
             return ' '.join(p for p in parts if p)
+        if k == 'pair':
+            parts = [self.destroy_stmt(self.tparse(t[1][1]), '(%s).second' % lval), self.destroy_stmt(self.tparse(t[1][0]), '(%s).first' % lval)]
+            return ' '.join(p for p in parts if p)
+        if k == 'tuple':
+            parts = [self.destroy_stmt(self.tparse(e), '(%s)._%d' % (lval, i)) for i, e in reversed(list(enumerate(t[1])))]
+            return ' '.join(p for p in parts if p)
         raise Unsupported('destroy of %s' % (t,))
 
     def need_deleter(self, pointee):
